@@ -13,6 +13,7 @@ import KikiVerif.Generated.ParserCert
 import KikiVerif.Proofs.CstToAst
 import KikiVerif.Proofs.ParseErr
 import KikiVerif.LR.Early
+import KikiVerif.Proofs.HaltFront
 
 namespace KikiVerif.C09
 open KikiVerif KikiVerif.FrontParse KikiVerif.Generated KikiVerif.LR
@@ -194,6 +195,34 @@ theorem C09_error_span (src : Str) (toks : List Token) (htok : Tokenize.tokenize
       simp only [Option.bind_some] at ht
       exact unexpectedToErr_token src toks htok t (List.mem_of_getElem? ht)
 
+/-- **C09, the front-end parser decides every token sequence**: `parser::parse` stops on every token list —
+sentence or not — within `HaltFront.parseBound` steps (linear in the number of tokens; the potential that
+shows it is searched and checked inside the kernel on the tables extracted from `parser.rs` on this run), and the
+answer it stops with is a CST iff the token sequence is a sentence of the Kiki grammar -/
+theorem C09_parse_decides (toks : List Token) (k : Nat) :
+    ∃ out, parse toks (HaltFront.parseBound toks.length + k) = some out ∧
+      (∀ t, out = .ok t → WF kikiG t (.n kikiG.start) ∧ t.yield = toks.map mkTok) ∧
+      ((∃ idx, out = .unexpected idx) ↔
+        ¬ ∃ t : Tree Nat Token, WF kikiG t (.n kikiG.start) ∧ t.yield = toks.map mkTok) := by
+  obtain ⟨out, ho⟩ := HaltFront.front_parse_halts toks k
+  have hc := C09_parse_correct toks _ out ho
+  refine ⟨out, ho, ?_, ?_⟩
+  · intro t e
+    subst e
+    exact hc.2.1 t rfl
+  · cases out with
+    | panic => exact absurd hc.1 (by simp)
+    | ok t =>
+      constructor
+      · rintro ⟨idx, e⟩; cases e
+      · intro hn; exact absurd (hc.2.2.mp ⟨t, rfl⟩) hn
+    | unexpected idx =>
+      constructor
+      · intro _ hex
+        obtain ⟨t, ht⟩ := hc.2.2.mpr hex
+        exact ht
+      · intro _; exact ⟨idx, rfl⟩
+
 end KikiVerif.C09
 
 #print axioms KikiVerif.C09.C09_error_span
@@ -204,3 +233,4 @@ end KikiVerif.C09
 #print axioms KikiVerif.C09.C09_table_valid
 #print axioms KikiVerif.C09.C09_parse_correct
 #print axioms KikiVerif.C09.C09_flatten
+#print axioms KikiVerif.C09.C09_parse_decides
